@@ -418,7 +418,19 @@ def check_unit(vc_path, tier='quick', sentinel=True, build_dir=None, pid=None):
         r.reasons.append('assumption scan: %d found, %d allowed by %s' % (len(r.assumptions), u.assumptions, os.path.basename(vc_path)))
     flags = list(u.flags)
     if tier == 'thorough':
-        flags = [f for f in flags if not f.startswith('--rlimit')] + ['--rlimit', '60']
+        # drop `--rlimit N` (two tokens) or `--rlimit=N`, then ask for the thorough limit
+        kept, skip = [], False
+        for f in flags:
+            if skip:
+                skip = False
+                continue
+            if f == '--rlimit':
+                skip = True
+                continue
+            if f.startswith('--rlimit'):
+                continue
+            kept.append(f)
+        flags = kept + ['--rlimit', '60']
     cmd, js, stderr, wall = run_verus(path, flags)
     r.cmd = ' '.join(cmd)
     r.verus_wall = wall
